@@ -877,6 +877,7 @@ where
     // gcall=1: a collection (which clears the apply cache) before every operation, so that no
     // memoised result can be served: the cache-free reference run of C06
     let gcall = case.param("gcall") == Some("1");
+    vtrace::set_rendezvous(case.param_u64("rdv", 0));
     let mut idx = 0;
     let mut par_no = 0u64;
     while idx < case.ops.len() {
@@ -934,12 +935,13 @@ fn run_par_block<F: BoolExt>(
     let base = it.core.slots.clone();
     let mref = it.core.mref.clone();
     let barrier = std::sync::Barrier::new(k);
+    let done = std::sync::atomic::AtomicUsize::new(0);
     let results: Vec<(Vec<(usize, String, String)>, BTreeMap<usize, F>)> = std::thread::scope(|sc| {
         let hs: Vec<_> = per
             .iter()
             .enumerate()
             .map(|(ti, ops)| {
-                let barrier = &barrier;
+                let (barrier, done) = (&barrier, &done);
                 let (my_mref, my_slots) = (mref.clone(), base.clone());
                 sc.spawn(move || {
                     vtrace::enter_thread(ti, seed);
@@ -955,12 +957,25 @@ fn run_par_block<F: BoolExt>(
                     barrier.wait();
                     for (i, op) in ops {
                         let tok: Vec<&str> = op.split_whitespace().collect();
+                        if tok[0] == "PGC" && tok.len() == 2 {
+                            // `PGC <max>`: one collection after the other for as long as another thread of
+                            // the block is still working, at most <max>
+                            let max: usize = tok[1].parse().expect("PGC <max>");
+                            let mut n = 0;
+                            while n < max && done.load(std::sync::atomic::Ordering::Relaxed) + 1 < k {
+                                let _ = t.exec(&["PGC"]);
+                                n += 1;
+                            }
+                            res.push((*i, op.clone(), format!("collections {n}")));
+                            continue;
+                        }
                         let r = match t.exec(&tok) {
                             Ok(r) => r,
                             Err(e) => format!("err {e}"),
                         };
                         res.push((*i, op.clone(), r));
                     }
+                    done.fetch_add(1, std::sync::atomic::Ordering::Relaxed);
                     t.substs.clear();
                     (res, t.core.slots)
                 })
@@ -1046,6 +1061,11 @@ mod vtrace {
         }
         static LOG: Mutex<LogState> = Mutex::new(LogState { lines: Vec::new(), pending: None, geom: None });
         static COUNTS: [AtomicU64; 32] = [const { AtomicU64::new(0) }; 32];
+        /// rendezvous perturbation (case parameter `rdv=<permille>`): with this probability a thread
+        /// about to access the apply cache waits (bounded) for the next collection to enter `pre_gc`,
+        /// so that its `try_lock` and the collector's `lock()` of the first buckets coincide
+        static RDV: AtomicU64 = AtomicU64::new(0);
+        static GC_EPOCH: AtomicU64 = AtomicU64::new(0);
         static INSTALLED: AtomicBool = AtomicBool::new(false);
         thread_local! {
             /// the apply-cache bucket this thread locked last with the blocking `lock()`
@@ -1103,10 +1123,25 @@ mod vtrace {
                 // ---- apply cache protocol (C07k): all of these are reported with the bucket locked ----
                 site::CACHE_BUCKET_LOCK => LAST_BUCKET.with(|b| b.set(data[0])),
                 site::CACHE_PRE_GC => {
-                    let mut log = LOG.lock().unwrap();
-                    log.geom = Some((data[0], data[1], data[2]));
-                    let e = format!("EV CP {} {}", TID.with(|t| t.get()), data[1]);
-                    log.push(e);
+                    {
+                        let mut log = LOG.lock().unwrap();
+                        log.geom = Some((data[0], data[1], data[2]));
+                        let e = format!("EV CP {} {}", TID.with(|t| t.get()), data[1]);
+                        log.push(e);
+                    }
+                    GC_EPOCH.fetch_add(1, Relaxed);
+                }
+                site::CACHE_GET | site::CACHE_ADD => {
+                    let q = RDV.load(Relaxed);
+                    if q > 0 && next_rand() % 1000 < q {
+                        let e0 = GC_EPOCH.load(Relaxed);
+                        let mut n = 0u32;
+                        while GC_EPOCH.load(Relaxed) == e0 && n < 20_000 {
+                            std::hint::spin_loop();
+                            n += 1;
+                        }
+                        return;
+                    }
                 }
                 site::CACHE_PRE_GC_BUCKET => {
                     let (tid, addr) = (TID.with(|t| t.get()), LAST_BUCKET.with(|b| b.get()));
@@ -1176,6 +1211,9 @@ mod vtrace {
             PERMILLE.store(permille, Relaxed);
             ON.store(true, Relaxed);
         }
+        pub fn set_rendezvous(permille: u64) {
+            RDV.store(permille, Relaxed);
+        }
         pub fn enter_thread(ti: usize, seed: u64) {
             TID.with(|t| t.set(ti));
             RNG.with(|r| r.set((seed ^ ((ti as u64 + 1) * 0x9e3779b97f4a7c15)) | 1));
@@ -1231,6 +1269,7 @@ mod vtrace {
     #[cfg(not(oxidd_verif))]
     mod imp {
         pub fn begin(_seed: u64, _permille: u64) {}
+        pub fn set_rendezvous(_permille: u64) {}
         pub fn enter_thread(_ti: usize, _seed: u64) {}
         pub fn end() -> Vec<String> {
             Vec::new()
@@ -1449,6 +1488,119 @@ mod mt {
     mt_run!(run_f64, F64);
 }
 
+// ---------------------------------------------------------------------------
+// TDD (ternary nodes): structures for the level-swap / reordering replay of C08.  Functions are
+// built from variables and constants by the three-valued operators; `T3EVAL` prints the value
+// table over all 3^n ternary assignments (digit v of the index in base 3: 0 = true, 1 = unknown,
+// 2 = false, i.e. the child index; value codes 0 = False, 1 = Unknown, 2 = True).
+// ---------------------------------------------------------------------------
+mod tv {
+    use super::*;
+    use oxidd::tdd::TDDFunction;
+    use oxidd::TVLFunction;
+    use oxidd_rules_tdd::TDDTerminal;
+
+    fn show(t: &TDDTerminal) -> String {
+        format!("{t:?}")
+    }
+
+    pub fn run_tdd(case: &Case, out: &mut dyn FnMut(String)) {
+        let cap = case.param_u64("cap", 1 << 16) as usize;
+        let cache = case.param_u64("cache", 1 << 12) as usize;
+        let threads = case.param_u64("threads", 1) as u32;
+        let snap_each = case.param("snap") == Some("each");
+        let mref = oxidd::tdd::new_manager(cap, cache, threads);
+        let mut core: Core<TDDFunction> = Core { mref, slots: BTreeMap::new() };
+        for line in &case.ops {
+            let tok: Vec<&str> = line.split_whitespace().collect();
+            let res: Result<String, String> = (|| {
+                if let Some(r) = core.exec(&tok) {
+                    return r;
+                }
+                match tok[0] {
+                    "T3CONST" => {
+                        let f = core.mref.with_manager_shared(|m| match tok[2] {
+                            "f" => TDDFunction::f(m),
+                            "u" => TDDFunction::u(m),
+                            _ => TDDFunction::t(m),
+                        });
+                        Ok(core.put(tok[1], f))
+                    }
+                    "T3VAR" => {
+                        let v: VarNo = tok[2].parse().unwrap();
+                        if v >= core.nvars() {
+                            return Err("skip".into());
+                        }
+                        let f = oom(core.mref.with_manager_shared(|m| TDDFunction::var(m, v)))?;
+                        Ok(core.put(tok[1], f))
+                    }
+                    "T3NOT" => {
+                        let r = oom(core.get(tok[2])?.not())?;
+                        Ok(core.put(tok[1], r))
+                    }
+                    "T3AND" | "T3OR" | "T3XOR" | "T3EQUIV" | "T3NAND" | "T3NOR" | "T3IMP" | "T3IMPS" => {
+                        let (a, b) = (core.get(tok[2])?, core.get(tok[3])?);
+                        let r = match tok[0] {
+                            "T3AND" => a.and(b),
+                            "T3OR" => a.or(b),
+                            "T3XOR" => a.xor(b),
+                            "T3EQUIV" => a.equiv(b),
+                            "T3NAND" => a.nand(b),
+                            "T3NOR" => a.nor(b),
+                            "T3IMP" => a.imp(b),
+                            _ => a.imp_strict(b),
+                        };
+                        let r = oom(r)?;
+                        Ok(core.put(tok[1], r))
+                    }
+                    "T3ITE" => {
+                        let r = oom(core.get(tok[2])?.ite(core.get(tok[3])?, core.get(tok[4])?))?;
+                        Ok(core.put(tok[1], r))
+                    }
+                    "T3EVAL" => {
+                        let n = core.nvars();
+                        if n > 6 {
+                            return Ok("toolarge".into());
+                        }
+                        let f = core.get(tok[1])?;
+                        let mut s = format!("vt3 {n}");
+                        for a in 0..3u32.pow(n) {
+                            let v = f.eval((0..n).map(|v| {
+                                (v, match a / 3u32.pow(v) % 3 {
+                                    0 => Some(true),
+                                    1 => None,
+                                    _ => Some(false),
+                                })
+                            }));
+                            s.push(' ');
+                            s.push(match v {
+                                Some(false) => '0',
+                                None => '1',
+                                Some(true) => '2',
+                            });
+                        }
+                        Ok(s)
+                    }
+                    "DROPALL" => {
+                        core.slots.clear();
+                        Ok("ok".into())
+                    }
+                    "SNAP" => Ok(core.snapshot(&[], &|t: &TDDTerminal| show(t))),
+                    other => Err(format!("unknown-op-{other}")),
+                }
+            })();
+            let res = match res {
+                Ok(r) => r,
+                Err(e) => format!("err {e}"),
+            };
+            out(format!("{line} -> {res}"));
+            if snap_each && tok[0] != "SNAP" {
+                out(format!("SNAP -> {}", core.snapshot(&[], &|t: &TDDTerminal| show(t))));
+            }
+        }
+    }
+}
+
 fn main() {
     match mode().as_str() {
         "run" => {
@@ -1465,6 +1617,7 @@ fn main() {
                     "mtbdd" => mt::run_i64(case, out),
                     #[cfg(feature = "mtbdd")]
                     "mtbddf" => mt::run_f64(case, out),
+                    "tdd" => tv::run_tdd(case, out),
                     k => panic!("unknown kind {k}"),
                 }
             });
